@@ -92,6 +92,7 @@ def run_item(lib, part, ref, item, vals, sites_filter=None):
     d_fs = lib.make_data(m)
     lib.mj_step(m, d_fs)                      # the reset state advanced by one step
     pre_num, _ = _wnum(d_pre)
+    pre_time = d_pre.time
     asleep_dofs = set()
     if cfg["sleep"]:
         ta = np.asarray(d_pre.tree_asleep)
@@ -143,11 +144,13 @@ def run_item(lib, part, ref, item, vals, sites_filter=None):
                 part.count(1)
                 continue
             num_e, info_e = _wnum(d_e)
-            raised_e = [w for w in range(M.W_BADQPOS, len(num_e)) if num_e[w] != pre_num[w]]
-            if autoreset and any(w in BADSTATE for w in raised_e):
-                # counters were cleared by the reset: only the raised state counter differs from zero
-                raised_e = [w for w in raised_e if w in BADSTATE and num_e[w] != 0]
-            reset_e = autoreset and bool(raised_e) and raised_e[0] in BADSTATE
+            if autoreset and d_e.time < pre_time:
+                # time went back: the data was reset; counters were cleared, only raised state counters are non-zero
+                raised_e = [w for w in BADSTATE if num_e[w] != 0]
+                reset_e = True
+            else:
+                raised_e = [w for w in range(M.W_BADQPOS, len(num_e)) if num_e[w] != pre_num[w]]
+                reset_e = autoreset and pre == "initial" and any(w in BADSTATE for w in raised_e)
 
             # ---------------- reference
             lib.mj_copyData(d_r, m, d_pre)
@@ -238,7 +241,8 @@ def run_item(lib, part, ref, item, vals, sites_filter=None):
                          "after %s with autoreset the data differs from a fresh mjData stepped once in field %s"
                          % (_names(raised_e), diff))
                 exp = np.zeros_like(num_e)
-                exp[raised_e[0]] = 1
+                if raised_e:
+                    exp[raised_e[0]] = 1
                 if len(raised_e) != 1 or (num_e != exp).any():
                     viol("S3|counters|%s" % _names(raised_e),
                          "after a reset the warning counters are %s, expected all zero except one raised counter == 1"
@@ -340,6 +344,8 @@ def run(ctx):
         if word not in txt:
             raise RuntimeError("warning enum layout changed: %d -> %r" % (w, txt))
     cfgs = M.model_configs(ctx.thorough)
+    if ctx.thorough:
+        cfgs += M.tree_configs(2)
     items = [(ci, c, ar, pi, pre) for ci, c in enumerate(cfgs) for ar in (True, False) for pi, pre in enumerate(M.PRESTATES)
              if ctx.thorough or _quick_selected(c, ar, pre)]
     sink = _Collector(ctx)
@@ -355,7 +361,9 @@ def run(ctx):
                 "_quick_selected) x EVERY element of {%s} x %d values {%s}; each point = one engine mj_step + one reference step, all "
                 "executed and counted. non-trivial = points where the injected value made a BADQPOS/BADQVEL/BADQACC/BADCTRL "
                 "counter change in the engine"
-                % (len(cfgs), "; ".join(M.config_tag(c) for c in cfgs), M.WARM_STEPS, len(items), len(cfgs) * 4,
+                % (len(cfgs), "; ".join(M.config_tag(c) for c in cfgs if c.get("kind") != "tree")
+                   + ("; + %d alphabet models: all forests <= 2 bodies x full joint menu, integrator/damping rotated"
+                      % sum(c.get("kind") == "tree" for c in cfgs) if ctx.thorough else ""), M.WARM_STEPS, len(items), len(cfgs) * 4,
                    ", ".join(M.SITES), len(_VALS),
                    ", ".join(v[0] for v in _VALS)))
     ctx.assumptions = [
